@@ -70,7 +70,7 @@ struct Req {
 }
 
 /// offline checker over the hook log
-fn check_log(events: &[verif::Event], cancelled_hint: u64, stats: &mut BTreeMap<String, u64>) -> (Vec<(String, Value)>, String, bool) {
+fn check_log(events: &[verif::Event], first_request: u64, cancelled_hint: u64, stats: &mut BTreeMap<String, u64>) -> (Vec<(String, Value)>, String, bool) {
     let mut reqs: BTreeMap<u64, Req> = BTreeMap::new();
     let mut violations = vec![];
     let mut grant_order: Vec<u64> = vec![];
@@ -81,6 +81,10 @@ fn check_log(events: &[verif::Event], cancelled_hint: u64, stats: &mut BTreeMap<
         }
         let mut it = ev.payload.split(' ');
         let id: u64 = it.next().and_then(|s| s.parse().ok()).unwrap_or(0);
+        if id <= first_request {
+            *stats.entry("events_of_earlier_executions_ignored".into()).or_insert(0) += 1;
+            continue;
+        }
         let queue = it.next().unwrap_or("").to_string();
         let r = reqs.entry(id).or_default();
         r.queue = queue;
@@ -203,6 +207,19 @@ pub async fn one_execution(seed: u64, stats: &mut BTreeMap<String, u64>) -> Resu
         opts.perf = Some(Box::new(move |p| p.apply_channel_len = apply_len));
         *stats.entry("executions_with_tiny_apply_channel".into()).or_insert(0) += 1;
     }
+    // nothing of an earlier execution of this process may reach into this one: no write
+    // connection of an earlier node is alive, and requests numbered before the marker are
+    // not ours
+    for _ in 0..400 {
+        if verif::LIVE_WRITERS.get() == 0 {
+            break;
+        }
+        tokio::time::sleep(Duration::from_millis(5)).await;
+    }
+    if verif::LIVE_WRITERS.get() != 0 {
+        return Err(format!("a write connection of an earlier execution is still alive (gauge {})", verif::LIVE_WRITERS.get()));
+    }
+    let first_request = verif::next_writer_request();
     let mut node = new_node(0, opts).await.map_err(|e| e.to_string())?;
     let _ = verif::take_log();
     verif::set_record(true);
@@ -466,7 +483,18 @@ pub async fn one_execution(seed: u64, stats: &mut BTreeMap<String, u64>) -> Resu
     *stats.entry("agent.local_txs".into()).or_insert(0) += all_events.iter().filter(|e| e.label == "local.after_commit").count() as u64;
     *stats.entry("agent.generate_sync_calls".into()).or_insert(0) += all_events.iter().filter(|e| e.label == "lock.acquiring" && e.payload.contains("generate_sync")).count() as u64 + gensync_calls;
     *stats.entry("hook_events".into()).or_insert(0) += all_events.len() as u64;
-    let (v2, h, nontrivial) = check_log(&all_events, cancelled_q.load(Ordering::SeqCst), stats);
+    let (mut v2, h, nontrivial) = check_log(&all_events, first_request, cancelled_q.load(Ordering::SeqCst), stats);
+    if v2.iter().any(|(s, _)| s.starts_with("exclusivity/")) {
+        // keep the write-queue events around the first overlap as part of the witness
+        let ids: BTreeSet<u64> = v2.iter().filter(|(s, _)| s.starts_with("exclusivity/")).flat_map(|(_, d)| [d["request"].as_u64(), d["first"].as_u64(), d["second"].as_u64()]).flatten().collect();
+        let slice: Vec<String> = all_events.iter().filter(|e| e.label.starts_with("wq.") && e.payload.split(' ').next().and_then(|x| x.parse::<u64>().ok()).is_some_and(|i| ids.contains(&i))).map(|e| format!("#{} {} {} task{} thr{}", e.seq, e.label, e.payload, e.task, e.thread)).collect();
+        for (s, d) in v2.iter_mut() {
+            if s.starts_with("exclusivity/") {
+                d["write_queue_events_of_the_requests_involved"] = json!(slice);
+                d["first_request_of_this_execution"] = json!(first_request);
+            }
+        }
+    }
     violations.extend(v2);
     let _ = total_versions;
     drop(node.shutdown().await);
